@@ -1,7 +1,9 @@
 (* C15 — property theorems.  Statements only: each is closed by [exact] of a lemma proved in
    coq/C15/ (or coq/C02/), followed by Print Assumptions. *)
 From Coq Require Import ZArith List Bool Permutation.
-From Scenic Require Import C02.Checker C02.CheckerProofs C15.Determinism C15.DeterminismProofs.
+From Coq Require Import Sorted.
+From Scenic Require Import C02.Checker C02.CheckerProofs C15.Determinism C15.DeterminismProofs
+  C15.SpecOrder C15.SpecOrderProofs.
 Import ListNotations.
 
 (* randomness consumed while checking does not perturb the user-visible stream *)
@@ -55,6 +57,78 @@ Theorem C15_no_optional_ok : forall P, (forall u, In u (p_reqs P) -> q_optional 
 Proof. exact no_optional_ok. Qed.
 Print Assumptions C15_no_optional_ok.
 
+(* ---------------------------------------------------------------- specifier resolution order *)
+(* sorted(deps) is a sort, and its output is determined by the SET: any iteration order of the
+   dependency set (string hashes, PYTHONHASHSEED) gives the same requiredProperties tuple *)
+Theorem C15_sorted_deps_canonical : forall l l',
+  Permutation l l' -> nsort l = nsort l' /\ Sorted le (nsort l) /\ Permutation (nsort l) l.
+Proof. exact sorted_deps_canonical. Qed.
+Print Assumptions C15_sorted_deps_canonical.
+
+(* the order in which _resolveSpecifiers evaluates the specifiers (hence the insertion order of the
+   object's property dict) is the same for all iteration orders pi, pi' of the dependency sets *)
+Theorem C15_spec_order_indep_of_hash : forall pi pi' specs,
+  (forall l, Permutation (pi l) l) -> (forall l, Permutation (pi' l) l) ->
+  resolve (present_sorted pi) specs = resolve (present_sorted pi') specs
+  /\ prop_order (present_sorted pi) specs = prop_order (present_sorted pi') specs.
+Proof. exact spec_order_indep_of_hash. Qed.
+Print Assumptions C15_spec_order_indep_of_hash.
+
+(* ... and so are the values drawn, the order of the draws and the RNG state after sampling an
+   object whose sampling dependencies are its property values in dict order *)
+Theorem C15_draws_indep_of_hash : forall pi pi' specs g obj pn ev deps r,
+  (forall l, Permutation (pi l) l) -> (forall l, Permutation (pi' l) l) ->
+  sample_all (object_dag g obj pn (present_sorted pi) specs) ev deps r
+  = sample_all (object_dag g obj pn (present_sorted pi') specs) ev deps r.
+Proof. exact draws_indep_of_hash. Qed.
+Print Assumptions C15_draws_indep_of_hash.
+
+(* every specifier is evaluated (the search loses none) *)
+Theorem C15_spec_order_complete : forall present specs i, i < length specs -> In i (resolve present specs).
+Proof. exact resolve_complete. Qed.
+Print Assumptions C15_spec_order_complete.
+
+(* seeded regression C15-2 (requiredProperties = tuple(deps)): two iteration orders of the same sets
+   give different property orders and a different value to the same random property *)
+Theorem C15_spec_order_unsorted_refuted : exists specs pi pi' g obj pn ev deps r,
+  (forall l, Permutation (pi l) l) /\ (forall l, Permutation (pi' l) l) /\
+  prop_order (present_raw pi) specs <> prop_order (present_raw pi') specs /\
+  lookup (ss_memo (sample_all (object_dag g obj pn (present_raw pi) specs) ev deps r)) 0
+  <> lookup (ss_memo (sample_all (object_dag g obj pn (present_raw pi') specs) ev deps r)) 0.
+Proof. exact resolve_unsorted_refuted. Qed.
+Print Assumptions C15_spec_order_unsorted_refuted.
+
+(* ---------------------------------------------------------------- private generators *)
+(* any number of draws from private generators (default_rng(seed) objects) leaves the global
+   generator untouched; in general the global cursor moves by the number of global draws *)
+Theorem C15_private_draws_keep_global : forall ops w,
+  (forallb is_private ops = true -> w_glob (run_ops ops w) = w_glob w)
+  /\ w_glob (run_ops ops w) = skip (n_global ops) (w_glob w).
+Proof. exact private_draws_keep_global. Qed.
+Print Assumptions C15_private_draws_keep_global.
+
+(* scene, iteration count and returned RNG state do not depend on what the checks do to ANY
+   generator (arbitrary op sequences per rejection iteration), nor on the other adversaries *)
+Theorem C15_output_indep_of_check_randomness : forall n P gather A A' ops ops' r, optional_ok P r ->
+  generate_ops n P gather A ops r = generate_ops n P gather A' ops' r.
+Proof. exact generate_ops_indep. Qed.
+Print Assumptions C15_output_indep_of_check_randomness.
+
+(* with the restore hoisted out of the rejection loop the output is still right as long as checks
+   draw from private generators only ... *)
+Theorem C15_late_restore_private_ok : forall n P gather A ops r,
+  (forall k, forallb is_private (ops k) = true) ->
+  generate_late n P gather A ops r = generate n P gather A r.
+Proof. exact generate_late_private_ok. Qed.
+Print Assumptions C15_late_restore_private_ok.
+
+(* ... but (seeded regression C15-1) global draws made while checking a rejected candidate show *)
+Theorem C15_late_restore_refuted : exists P n A ops ops' r,
+  (forall r, optional_ok P r) /\
+  value_of 0 (generate_late n P gather_ordered A ops r) <> value_of 0 (generate_late n P gather_ordered A ops' r).
+Proof. exact late_restore_refuted. Qed.
+Print Assumptions C15_late_restore_refuted.
+
 (* non-vacuity: the witness program satisfies the hypothesis and generates something *)
 Example C15_examples :
   (forall r, optional_ok f2_prog r)
@@ -63,4 +137,21 @@ Example C15_examples :
 Proof.
   split; [|split; vm_compute; reflexivity].
   apply no_optional_ok. intros u [<-|[]]. reflexivity.
+Qed.
+
+(* non-vacuity of the new statements: `total: self.alpha + self.beta` before alpha and beta resolves to
+   alpha, beta, total whichever way the set {alpha, beta} is iterated; a reversal is a permutation; an op
+   sequence with private draws only exists and leaves the cursor; one with global draws moves it *)
+Example C15_examples_spec :
+  prop_order (present_sorted (fun l => l)) specs_w = [0; 1; 2]
+  /\ prop_order (present_sorted (@rev nat)) specs_w = [0; 1; 2]
+  /\ prop_order (present_raw (@rev nat)) specs_w = [1; 0; 2]
+  /\ (forall l : list nat, Permutation (rev l) l)
+  /\ forallb is_private [PNew Z.of_nat; PDraw 0; PDraw 0] = true
+  /\ cursor (w_glob (run_ops [PNew Z.of_nat; PDraw 0; PDraw 0] (mkW rng0 []))) = 0
+  /\ cursor (w_glob (run_ops [GDraw; PNew Z.of_nat; PDraw 0; GDraw] (mkW rng0 []))) = 2
+  /\ value_of 0 (generate_late 3 late_prog gather_ordered adv0 (fun _ => []) rng0) = Some (Some 1%Z).
+Proof.
+  repeat split; try (vm_compute; reflexivity).
+  intro l. apply Permutation_sym, Permutation_rev.
 Qed.
